@@ -12,6 +12,7 @@ JSON / XML parsers.
 
 import json
 import re
+import warnings
 from functools import partial
 from urllib.parse import parse_qs
 
@@ -679,6 +680,10 @@ class Checker:
             rec.count('req.multi_raise')
         # ---- nothing may escape
         rec.count('mon.no_escape')
+        if accept is not None and any(ord(ch) > 0x7f for ch in accept):
+            rec.count('mon.no_escape.accept_with_obs_text_octets')
+        if prog.cfg.get('warnings') == 'error':
+            rec.count('mon.no_escape.warnings_as_errors')
         if out['exc'] is not None or out['outcome'] != 'done':
             known = K_FORM if form_ctx else None
             self.report('exception-escaped', rq, {'exc': repr(out['exc']), 'outcome': out['outcome'],
@@ -987,7 +992,20 @@ class _Probe:
 
 
 def run_program(rec, spec, shrink=True):
-    """Build the app described by spec, replay its history; every request is checked."""
+    """Build the app described by spec, replay its history; every request is checked.
+
+    cfg['warnings'] == 'error': the whole program (app construction, registrations, requests) runs in a process
+    that turns every warning into an exception (python -W error), as CI/staging deployments do.  An application
+    that uses no deprecated API itself must behave exactly the same there."""
+    if (spec.get('cfg') or {}).get('warnings') == 'error':
+        with warnings.catch_warnings():
+            warnings.simplefilter('error')
+            rec.count('env.warnings_as_errors_programs')
+            return _run_program(rec, spec, shrink)
+    return _run_program(rec, spec, shrink)
+
+
+def _run_program(rec, spec, shrink=True):
     prog = Program(spec)
     rec.count('programs')
     rec.count('stack.' + prog.stack)
@@ -1264,6 +1282,11 @@ MIXED_CASE_SUFFIX = ['application/vnd.acme.v2+JSON', 'Application/Atom+XML', 'ap
                      'application/vnd.c04+JSON, application/vnd.c04+xml', 'image/png;Q=0.9, application/hal+JSON',
                      'Application/Vnd.C04+Xml;q=0.001, text/plain', 'application/vnd.c04+JSON;q=0.3, Image/PNG',
                      'text/html;q=0.9,application/xhtml+XML;q=0.8']
+OBS_TEXT_ACCEPTS = ['application/json, text/caf\xe9', '\xff\xfe', 'text/xml;q=0.9, \xe9/\xe8', '\x80',
+                    'application/vnd.c04+json\x80', '\xc3\xa9/\xc3\xa9', 'text/xml, */*;q=0.1;x=\xa0',
+                    '\xa0application/json', 'application/vnd.\xe9+xml', 'image/png;q=0.9\xff',
+                    'text/html;level=\xb9, application/xml', 'application/x-c04;v=\xfc;q=0.5, image/png',
+                    '\xe2\x82\xac/*, text/xml;q=0.2', 'application/json\xff;q=0.5']
 ACCEPT_TYPES = ['application/json', 'text/xml', 'application/xml', CUSTOM_TYPE, '*/*', 'application/*', 'text/*',
                 'image/png', 'text/html', 'text/plain', 'application/vnd.c04+json', 'application/vnd.c04+xml',
                 'application/yaml', 'application/problem+json', 'image/svg+xml',
@@ -1285,7 +1308,13 @@ def rand_accept(rng):
         return rng.choice(WEAK_ACCEPTS)
     if r < 0.23:
         return rng.choice(MIXED_CASE_SUFFIX)
-    if r < 0.27:
+    if r < 0.26:
+        return rng.choice(OBS_TEXT_ACCEPTS)
+    if r < 0.28:
+        # arbitrary header octets next to a well-formed range
+        junk = ''.join(chr(rng.choice([rng.randint(0x80, 0xff), rng.randint(0x21, 0x7e)])) for _ in range(rng.randint(1, 6)))
+        return rng.choice([junk, 'application/json, ' + junk, junk + ', text/xml;q=0.5', 'text/' + junk])
+    if r < 0.32:
         return rng.choice([M.URLENC, M.MULTIPART, M.URLENC + ';q=0.9, application/json;q=0.1',
                            'multipart/form-data, application/json;q=0.5', 'application/*;q=0.9, application/json;q=0.1'])
     n = rng.choice([1, 1, 2, 2, 3, 4, 6])
@@ -1299,7 +1328,8 @@ def rand_cfg(rng, boom=False):
     return {'xml': rng.random() < 0.7, 'custom_media': rng.random() < 0.5,
             'json_handler': rng.choice(['default', 'default', 'custom', 'removed']),
             'xml_handler': rng.random() < 0.2, 'independent': rng.random() < 0.6, 'boom': boom,
-            'handlers_mode': rng.choice(['stock', 'stock', 'forms_deleted', 'replaced'])}
+            'handlers_mode': rng.choice(['stock', 'stock', 'forms_deleted', 'replaced']),
+            'warnings': 'error' if rng.random() < 0.2 else 'default'}
 
 
 ROOT_CHOICES = ['Exception', 'Exception', 'HTTPError', 'HTTPNotFound', 'HTTPStatus', 'ValueError', 'LookupError',
@@ -1637,7 +1667,7 @@ E3_ACCEPTS = [
     'text/xml;q=0.9,\tapplication/json;q=0.95', 'text/html, application/xhtml+xml, application/xml;q=0.9, */*;q=0.8',
     'text/html,application/xhtml+xml,image/webp;q=0.9', M.URLENC, M.MULTIPART,
     'application/*;q=0.9, application/json;q=0.1', 'multipart/form-data;q=0.9, application/json',
-] + MIXED_CASE_SUFFIX + WEAK_ACCEPTS
+] + MIXED_CASE_SUFFIX + OBS_TEXT_ACCEPTS + WEAK_ACCEPTS
 
 E3_CFGS = [{'xml': x, 'custom_media': c, 'json_handler': j, 'xml_handler': h, 'independent': True, 'handlers_mode': m}
            for x in (True, False) for c in (False, True) for j in ('default', 'custom', 'removed')
@@ -1703,6 +1733,31 @@ def e5_program(stack):
                 if site == 'sink':
                     rq['path'] = 'sink'
                 reqs.append(rq)
+    return base, reqs
+
+
+E6_CFGS = [{'independent': True, 'warnings': 'error'},
+           {'independent': True, 'warnings': 'error', 'custom_media': True, 'json_handler': 'custom'},
+           {'independent': False, 'warnings': 'error', 'xml': False, 'xml_handler': True},
+           {'independent': True, 'warnings': 'error', 'xml': False, 'handlers_mode': 'replaced'},
+           {'independent': True, 'warnings': 'error', 'json_handler': 'removed', 'handlers_mode': 'forms_deleted'}]
+
+
+def e6_program(stack, cfg):
+    """warnings-as-errors process: every Accept value x (HTTPError with all fields, route miss, unexpected
+    exception -> 500, HTTPError raised by a handler, HTTPStatus, custom handler)"""
+    base = {'stack': stack, 'cfg': cfg, 'classes': [['A', ['Exception'], False], ['B', ['A'], False]],
+            'handlers': {'h0': ['raise_http', dict(E2_FULL, cls='HTTPGone')], 'h1': ['text', 418, 'teapot', []]},
+            'steps': [['reg', ['A'], 'h0'], ['reg', ['B'], 'h1']]}
+    reqs = []
+    for acc in E3_ACCEPTS:
+        reqs.append({'method': 'GET', 'accept': acc, 'plan': [['responder', None, E3_ERR]]})
+        reqs.append({'method': 'GET', 'path': 'noroute', 'accept': acc, 'plan': []})
+        reqs.append({'method': 'POST', 'accept': acc, 'plan': [['before', None, {'cls': 'ValueError', 'msg': 'x'}]]})
+        reqs.append({'method': 'GET', 'accept': acc, 'plan': [['mw1.resp', None, {'cls': 'A'}]]})
+        reqs.append({'method': 'GET', 'accept': acc, 'plan': [['sink', None, {'cls': 'B'}]], 'path': 'sink'})
+        reqs.append({'method': 'GET', 'accept': acc,
+                     'plan': [['responder', None, {'cls': 'HTTPStatus', 'status': 202, 'headers': None, 'text': 't'}]]})
     return base, reqs
 
 
@@ -1791,6 +1846,13 @@ def run(rec):
         mine = [r for r in reqs if (idx := idx + 1) % n == me]   # noqa
         chunked_program(rec, base, mine, size=100)
         rec.count('e5.requests', len(mine))
+    # ---- E6: the same decisions in a process that turns warnings into errors
+    for cfg in E6_CFGS:
+        for stack in ('wsgi', 'asgi'):
+            base, reqs = e6_program(stack, cfg)
+            mine = [r for r in reqs if (idx := idx + 1) % n == me]   # noqa
+            chunked_program(rec, base, mine, size=200)
+            rec.count('e6.requests', len(mine))
     rec.exhaustive = True
     if me == 0:
         rec.note('exhaustive parts: E1 all registration histories of length <= %d over %d targets x 2 stacks; '
@@ -1828,6 +1890,8 @@ def run(rec):
         'chain.handler_wrote_before_raise': 600, 'chain.wrote_text_then_raise_status': 150,
         'chain.wrote_text_bytes_then_raise_status': 90, 'chain.wrote_data_then_raise_status': 150,
         'chain.wrote_media_then_raise_status': 150, 'chain.wrote_text_then_raise_http': 40,
+        'mon.no_escape.accept_with_obs_text_octets': 1500, 'mon.no_escape.warnings_as_errors': 3000,
+        'env.warnings_as_errors_programs': 10,
         'cfg.single_candidate': 800, 'cfg.few_candidates': 1500, 'cfg.stock_or_more_candidates': 4000,
         'vary.error_defines_members': 500, 'vary.set_before_raise': 550, 'negotiation.mixed_case_decided': 300,
     }
